@@ -6,18 +6,22 @@ from vlib import common as C
 LEVEL = "model_checking"
 
 
-def mlkem512_job(w, i, job):
+PARAMS = {"ML-KEM-512": ("mlkem", 2, 3, 10, 4), "ML-KEM-768": ("mlkem", 3, 2, 10, 4), "ML-KEM-1024": ("mlkem", 4, 2, 11, 5),
+          "Kyber512": ("kyber", 2, 3, 10, 4), "Kyber768": ("kyber", 3, 2, 10, 4), "Kyber1024": ("kyber", 4, 2, 11, 5)}
+
+
+def mlkem_job(w, i, job):
     d = os.path.join(w, "mk%d" % i)
     os.makedirs(d, exist_ok=True)
     C.stage_specs(d, "C03")
     json.dump(job, open(os.path.join(d, "job.json"), "w"))
-    r = C.tlc(d, "MLKEM512Job", "MLKEM512Job.cfg", workers=1, heap="3g", timeout=1700, stack="256m")
+    r = C.tlc(d, "MLKEMJob", "MLKEMJob.cfg", workers=1, heap="3g", timeout=1700, stack="256m")
     vp = os.path.join(d, "verdict.json")
     if not r.ok or not os.path.exists(vp):
-        raise C.Infra("MLKEM512Job failed:\n%s" % r.tail(40))
+        raise C.Infra("MLKEMJob failed:\n%s" % r.tail(40))
     v = json.load(open(vp))
-    if not v["done"]:
-        raise C.Infra("MLKEM512Job did not reach the end:\n%s" % r.tail(20))
+    if not v["done"] or not v["sampled"]:
+        raise C.Infra("MLKEMJob did not reach the end / ran out of squeezed bytes:\n%s" % r.tail(20))
     return v, r.distinct
 
 
@@ -58,30 +62,41 @@ def run(tier, rep, replay=None):
             key = "%s:%s:%s" % (ev, ln["param"], what)
             det = {k: v for k, v in ln.items() if v not in ("", [], 0, False)}
         rep.violation(key, {"observed": det, "explain": "line rejected by Trace_Kem.tla"})
-    # TLC recomputes ML-KEM-512 KeyGen + Encaps from FIPS 203 for sampled seeds
+    # TLC recomputes KeyGen + Encaps and Decaps (accepting and rejecting) from the standards for sampled seeds of every parameter set
     hx = lambda s: list(bytes.fromhex(s))
-    kg = [l for l in lines if l["ev"] == "keygen" and l["param"] == "ML-KEM-512" and not l["panics"]]
-    en = [l for l in lines if l["ev"] == "encaps" and l["param"] == "ML-KEM-512" and not l["panics"]]
+    rnd = random.Random(C.SEED)
     jobs = []
-    for e in en:
-        sd, m = e["seed"].split("/")
-        k = [x for x in kg if x["seed"] == sd]
-        if k:
-            jobs.append(({"d": hx(sd)[:32], "z": hx(sd)[32:], "m": hx(m), "ek": hx(k[0]["ek"]), "ct": hx(e["ct"]), "ss": hx(e["ss"])}, e["class"]))
-    random.Random(C.SEED).shuffle(jobs)
-    jobs = jobs[:24 if thorough else 4]
+    per = 4 if thorough else 1
+    for param, (flavor, k, eta1, du, dv) in PARAMS.items():
+        base = {"flavor": flavor, "k": k, "eta1": eta1, "du": du, "dv": dv}
+        kg = {l["seed"]: l for l in lines if l["ev"] == "keygen" and l["param"] == param and not l["panics"]}
+        en = [l for l in lines if l["ev"] == "encaps" and l["param"] == param and not l["panics"] and l["seed"].split("/")[0] in kg]
+        de = [l for l in lines if l["ev"] == "decaps" and l["param"] == param and not l["panics"] and l["seed"] in kg]
+        rnd.shuffle(en)
+        for e in en[:per]:
+            sd, m = e["seed"].split("/")
+            jobs.append((dict(base, op="encaps", d=hx(sd)[:32], z=hx(sd)[32:], m=hx(m), ek=hx(kg[sd]["ek"]), dk=hx(kg[sd]["dk"]), ct=hx(e["ct"]), ss=hx(e["ss"])), param, "keygen+encaps", None))
+        acc = [l for l in de if l["same"]]
+        rej = [l for l in de if not l["same"]]
+        rnd.shuffle(acc)
+        rnd.shuffle(rej)
+        for l in acc[:per] + rej[:2 * per]:
+            jobs.append((dict(base, op="decaps", d=[], z=[], m=[], ek=[], dk=hx(kg[l["seed"]]["dk"]), ct=hx(l["ct"]), ss=hx(l["k"])), param, "decaps:" + l["class"], l["same"]))
     falsified = copy.deepcopy(jobs[0][0])
     falsified["ct"][5] ^= 1
-    with ThreadPoolExecutor(min(C.NCPU, 12)) as ex:
-        res = list(ex.map(lambda ij: mlkem512_job(w, ij[0], ij[1][0]), enumerate(jobs + [(falsified, "falsified")])))
+    with ThreadPoolExecutor(min(C.NCPU, 14)) as ex:
+        res = list(ex.map(lambda ij: mlkem_job(w, ij[0], ij[1][0]), enumerate(jobs + [(falsified, "", "falsified", None)])))
     fv = res[-1][0]
     if fv["ct"] or not fv["ek"]:
-        raise C.Infra("MLKEM512Job accepted a falsified ciphertext")
-    for (job, cls), (v, _) in zip(jobs, res[:-1]):
-        for part in ("ek", "ct", "ss"):
+        raise C.Infra("MLKEMJob accepted a falsified ciphertext")
+    for (job, param, cls, same), (v, _) in zip(jobs, res[:-1]):
+        parts = ("ek", "dk", "ct", "ss") if job["op"] == "encaps" else ("ss",)
+        for part in parts:
             if not v[part]:
-                rep.violation("fips203:ML-KEM-512:%s" % part, {"class": cls, "d": bytes(job["d"]).hex(), "z": bytes(job["z"]).hex(), "m": bytes(job["m"]).hex(),
-                                                               "explain": "the library's %s is not the value TLC computes from FIPS 203 (MLKEM512Job.tla)" % part})
+                rep.violation("standard:%s:%s:%s" % (param, cls.split(":")[0], part), {"class": cls, "d": bytes(job["d"]).hex(), "z": bytes(job["z"]).hex(), "m": bytes(job["m"]).hex(), "ct": bytes(job["ct"]).hex()[:80],
+                                                                                  "explain": "the library's %s is not the value TLC computes from FIPS 203 / round-3 Kyber (MLKEMJob.tla)" % part})
+        if same is not None and v["same"] != same:
+            raise C.Infra("transcription and TLA+ specification disagree on whether a ciphertext re-encrypts to itself")
     good = [i for i in range(len(lines)) if i not in set(bad)]
     can = []
     gd = [i for i in good if lines[i]["ev"] == "decaps" and not lines[i]["same"]]
@@ -97,19 +112,19 @@ def run(tier, rep, replay=None):
         b2, _ = C.validate_lines(w, "Trace_Kem", "Lines.cfg", can)
         if b2 != list(range(len(can))):
             raise C.Infra("binding canary accepted")
-    rep.add(states=max(1, sum(x[1] for x in res)), transitions=max(1, sum(x[1] for x in res)), traces_validated_against_impl=len(lines), tlc_recomputed_mlkem512=len(jobs),
+    rep.add(states=max(1, sum(x[1] for x in res)), transitions=max(1, sum(x[1] for x in res)), traces_validated_against_impl=len(lines), tlc_recomputed=len(jobs), tlc_recomputed_kinds=sorted({j[1] + ' ' + j[2].split(':')[0] for j in jobs}),
             keygen=sum(1 for l in lines if l["ev"] == "keygen"), encaps=sum(1 for l in lines if l["ev"] == "encaps"), decaps=sum(1 for l in lines if l["ev"] == "decaps"),
             decaps_rejections=sum(1 for l in lines if l["ev"] == "decaps" and not l["same"]), parse=sum(1 for l in lines if l["ev"].startswith("parse")),
             helper_blocks=sum(1 for l in lines if l["ev"] == "helper"), helper_values=sum(len(l["ys"]) for l in lines if l["ev"] == "helper"))
     for l in [x for x in lines if x["ev"] == "decaps"][:2] + [x for x in lines if x["ev"] == "helper"][:1]:
         rep.sample({k: (v if not isinstance(v, list) else v[:8]) for k, v in l.items() if k not in ("bytes", "ct")})
-    rep.assumptions += ["byte-for-byte comparison of keys, ciphertexts and shared secrets uses a plain transcription of FIPS 203 / round-3 Kyber (harness/drivers/mlkemref, schoolbook arithmetic, golang.org/x/crypto/sha3); TLC itself recomputes ML-KEM-512 KeyGen + Encaps from the standard for sampled seeds, rejects a falsified ciphertext, decides every decapsulation from the Fujisaki-Okamoto facts, decodes every parsed encapsulation key itself, and evaluates the helper functions' contracts on the dumped domains",
+    rep.assumptions += ["byte-for-byte comparison of keys, ciphertexts and shared secrets uses a plain transcription of FIPS 203 / round-3 Kyber (harness/drivers/mlkemref, schoolbook arithmetic, golang.org/x/crypto/sha3); TLC itself recomputes KeyGen + Encaps and Decaps (accepting and implicitly rejecting) of all six parameter sets from the standards for sampled seeds of the run (MLKEMJob.tla, no hints), rejects a falsified ciphertext, decides every decapsulation from the Fujisaki-Okamoto facts, decodes every parsed encapsulation key itself, and evaluates the helper functions' contracts on the dumped domains",
                         "Montgomery reduction is dumped at both ends of its domain, around zero and with a stride through the rest (2^16 q values in total are not enumerated)",
                         "centred-binomial sampling and uniform sampling are covered through key generation / encapsulation outputs, not as separate functions"]
 
 
 MANIFEST = {
- "text": "FoTransform.tla states the Fujisaki-Okamoto layer of ML-KEM and of round-3 Kyber over an abstract encryption scheme and checks correctness and that the implicit-rejection key is bound to the RECEIVED ciphertext (TLC finds the seeded deviation that uses the re-encrypted one); MLKEM512Job.tla is FIPS 203 ML-KEM-512 KeyGen_internal + Encaps_internal as an executable behaviour (Keccak job machine, sampling, NTT by layers, compression, encoding) with which TLC recomputes ek / ct / ss for sampled seeds of the run and rejects a falsified ciphertext; KyberHelpers.tla states Barrett and Montgomery reduction, Montgomery conversion, conditional subtraction, Compress_d / Decompress_d (d = 1, 4, 5, 10, 11) and 12-bit packing, evaluated by TLC on the implementation's outputs over the ENTIRE domain (Montgomery reduction: both ends, around zero, strided) under the default and the purego build. The driver compares keys, ciphertexts and secrets of all six parameter sets with a transcription of the standards on structured and random seeds, decapsulates honest, other-key, bit-flipped (c1 and c2), constant and random ciphertexts with TLC deciding which candidate key must be returned, and parses ML-KEM keys with coefficients q-1 / q / q+1 / 4095 at first, last and random positions and decapsulation keys with altered hash / ek / z (TLC decodes the coefficients itself: accepted iff all below q, accepted keys re-encode identically).",
- "note": "TLC recomputation of the full algorithm is limited to ML-KEM-512 KeyGen + Encaps (4 seeds quick, 24 thorough); the other parameter sets and decapsulation rely on the transcription plus the decision / helper specifications.",
- "technique": "TLC check of abstract FO transform (with seeded deviation) + executable FIPS 203 ML-KEM-512 in TLA+ recomputing sampled outputs + TLC evaluation of helper-function contracts over complete domains + TLC judgement of recorded KEM operations + differential against a transcription of the standards",
+ "text": "FoTransform.tla states the Fujisaki-Okamoto layer of ML-KEM and of round-3 Kyber over an abstract encryption scheme and checks correctness and that the implicit-rejection key is bound to the RECEIVED ciphertext (TLC finds the seeded deviation that uses the re-encrypted one); MLKEMJob.tla is FIPS 203 KeyGen_internal + Encaps_internal + Decaps_internal (and the round-3 Kyber variants) for k = 2, 3, 4 as an executable behaviour (Keccak job machine over a k-dependent program of hash jobs, sampling, NTT by layers, compression, encoding, K-PKE.Decrypt, re-encryption, implicit rejection) with which TLC recomputes ek / dk / ct / ss and decapsulation results for sampled seeds and ciphertexts of the run and rejects a falsified ciphertext; KyberHelpers.tla states Barrett and Montgomery reduction, Montgomery conversion, conditional subtraction, Compress_d / Decompress_d (d = 1, 4, 5, 10, 11) and 12-bit packing, evaluated by TLC on the implementation's outputs over the ENTIRE domain (Montgomery reduction: both ends, around zero, strided) under the default and the purego build. The driver compares keys, ciphertexts and secrets of all six parameter sets with a transcription of the standards on structured and random seeds, decapsulates honest, other-key, bit-flipped (c1 and c2), constant and random ciphertexts with TLC deciding which candidate key must be returned, and parses ML-KEM keys with coefficients q-1 / q / q+1 / 4095 at first, last and random positions and decapsulation keys with altered hash / ek / z (TLC decodes the coefficients itself: accepted iff all below q, accepted keys re-encode identically).",
+ "note": "TLC recomputation of the full algorithms is sampled: per parameter set 1 key generation + encapsulation and 3 decapsulations (1 accepting, 2 rejecting) in quick, four times that in thorough; all other lines rely on the transcription plus the decision / helper specifications.",
+ "technique": "TLC check of abstract FO transform (with seeded deviation) + executable FIPS 203 / Kyber round 3 (KeyGen, Encaps, Decaps; k = 2, 3, 4) in TLA+ recomputing sampled outputs + TLC evaluation of helper-function contracts over complete domains + TLC judgement of recorded KEM operations + differential against a transcription of the standards",
 }
